@@ -862,7 +862,12 @@ func (msg *Message) Decrypt(finder KeyWrapperFinder) (plaintext []byte, err erro
 		if err != nil {
 			return nil, fmt.Errorf("jwe: failed to unwrap key: %w", err)
 		}
+		// enc is not required to be integrity protected,
+		// so it may be in the unprotected headers of the JSON serialization.
 		enc0 := msg.header.EncryptionAlgorithm()
+		if enc0 == "" {
+			enc0 = merged.EncryptionAlgorithm()
+		}
 		if !enc0.Available() {
 			return nil, errors.New("jwa: requested content encryption algorithm " + string(enc0) + " is not available")
 		}
@@ -1309,7 +1314,7 @@ type jsonJWE struct {
 	AAD         string          `json:"aad,omitempty"`
 	Ciphertext  string          `json:"ciphertext"`
 	IV          string          `json:"iv,omitempty"`
-	Protected   string          `json:"protected"`
+	Protected   string          `json:"protected,omitempty"`
 	Recipients  []jsonRecipient `json:"recipients"`
 	Tag         string          `json:"tag,omitempty"`
 	Unprotected map[string]any  `json:"unprotected,omitempty"`
@@ -1333,14 +1338,20 @@ func ParseJSON(data []byte) (*Message, error) {
 		return nil, err
 	}
 
-	b64protected := []byte(raw.Protected)
-	protected, err := b64Decode(b64protected)
-	if err != nil {
-		return nil, err
-	}
-	rawHeader, err := unmarshalJSON(protected)
-	if err != nil {
-		return nil, err
+	// the "protected" member is absent if the JWE Protected Header is empty.
+	var b64protected, protected []byte
+	var rawHeader map[string]any
+	if raw.Protected != "" {
+		var err error
+		b64protected = []byte(raw.Protected)
+		protected, err = b64Decode(b64protected)
+		if err != nil {
+			return nil, err
+		}
+		rawHeader, err = unmarshalJSON(protected)
+		if err != nil {
+			return nil, err
+		}
 	}
 	h, err := decodeHeader(rawHeader)
 	if err != nil {
